@@ -1,6 +1,7 @@
 SPECIFICATION SimSpec
 CONSTANTS
   WorkerCpus <- T_Workers
+  LateWorkers <- T_Late
   WorkerGroup <- T_Groups
   WorkerLife <- T_Life
   MaxTicks = 3
